@@ -65,6 +65,7 @@ pub fn build(q: &Q) -> QosPolicies {
     if q.ow >= 0 {
         b = b.ownership(match q.ow {
             0 => Ownership::Shared,
+            3 => Ownership::Exclusive { strength: 0 },
             s => Ownership::Exclusive { strength: s },
         });
     }
@@ -77,7 +78,12 @@ pub fn build(q: &Q) -> QosPolicies {
         });
     }
     if q.r >= 0 {
-        b = b.reliability(if q.r == 1 { Reliability::Reliable { max_blocking_time: Duration::from_millis(100) } } else { Reliability::BestEffort });
+        b = b.reliability(match q.r {
+            0 => Reliability::BestEffort,
+            1 => Reliability::Reliable { max_blocking_time: Duration::from_millis(100) },
+            2 => Reliability::Reliable { max_blocking_time: Duration::ZERO },
+            _ => Reliability::Reliable { max_blocking_time: Duration::INFINITE },
+        });
     }
     if q.o >= 0 {
         b = b.destination_order(if q.o == 1 { DestinationOrder::BySourceTimeStamp } else { DestinationOrder::ByReceptionTimestamp });
@@ -96,9 +102,16 @@ pub fn run_one(run_no: usize, c: &Case, out: &mut Vec<Value>) -> Vec<Vec<u8>> {
         None => "None".to_string(),
         Some(p) => format!("{p:?}"),
     };
+    // each side learns the other's QoS from a serialised SEDP announcement (alternating byte order)
+    let le = run_no % 2 == 0;
+    let off_seen = rustdds::verif::wire_rig::qos_over_the_wire(&off, false, le);
+    let req_seen = rustdds::verif::wire_rig::qos_over_the_wire(&req, true, le);
+    let wire_ok = off_seen.is_ok() && req_seen.is_ok();
+    let off_seen = off_seen.unwrap_or_else(|_| off.clone());
+    let req_seen = req_seen.unwrap_or_else(|_| req.clone());
     // 2. reader side: a reader with the requested QoS learns of a writer with the offered QoS
     let mut rr = ReaderRig::new_with_qos(&[req.clone()]);
-    rr.match_writer_with_qos(0, WG, &off, 22_001);
+    rr.match_writer_with_qos(0, WG, &off_seen, 22_001);
     let r_matched = rr.matched_writers(0).contains(&WG);
     let mut r_status = vec![];
     while let Some(s) = rr.slots[0].dr().try_recv_status() {
@@ -110,11 +123,11 @@ pub fn run_one(run_no: usize, c: &Case, out: &mut Vec<Value>) -> Vec<Vec<u8>> {
     }
     // 3. writer side: a writer with the offered QoS learns of a reader with the requested QoS
     let mut wr = WriterRig::new_with_qos(&off, None, WG);
-    wr.match_reader_with_qos(RG, &req, 22_002);
+    wr.match_reader_with_qos(RG, &req_seen, 22_002);
     let w_matched = wr.matched_readers().contains(&RG);
     let w_status: Vec<String> = wr.drain_status().into_iter().map(|(k, _, _, _)| if k == "PublicationMatched" { "Matched".to_string() } else { k.replace("OfferedIncompatibleQos:", "") }).collect();
     out.push(json!({"ev":"Reset","run":run_no}));
-    out.push(json!({"ev":"Case","off":c.off,"req":c.req,"verdict":verdict,"r_matched":r_matched,"r_status":r_status,"w_matched":w_matched,"w_status":w_status}));
+    out.push(json!({"ev":"Case","off":c.off,"req":c.req,"verdict":verdict,"r_matched":r_matched,"r_status":r_status,"w_matched":w_matched,"w_status":w_status,"wire_ok":wire_ok}));
     vec![]
 }
 
@@ -128,10 +141,10 @@ fn rq(rng: &mut StdRng) -> Q {
         po: if ps < 0 { 0 } else { rng.gen_range(0..2) },
         dl: rng.gen_range(-1..4),
         lb: rng.gen_range(-1..4),
-        ow: rng.gen_range(-1..3),
+        ow: rng.gen_range(-1..4),
         lk,
         ll: if lk < 0 { -1 } else { rng.gen_range(0..4) },
-        r: rng.gen_range(-1..2),
+        r: rng.gen_range(-1..4),
         o: rng.gen_range(-1..2),
     }
 }
